@@ -124,6 +124,18 @@ pub fn suite_seg_pairs(cfg: &Cfg, rep: &mut Report) {
 
 /// domains for random histories: (lo, hi)
 pub fn domains(rng: &mut Rng, h: u64) -> (i64, i64) {
+    // one history in 13: a 64-bit domain wider than 2^32 points (coordinate type i64)
+    if h % 13 == 7 {
+        let k = rng.range(33, 62);
+        let len = (1i64 << k) + rng.range(-3, 3);
+        let lo = match rng.below(4) {
+            0 => 0,
+            1 => -(len / 2),
+            2 => i64::MIN / 2,
+            _ => i64::MAX - len,
+        };
+        return (lo, lo + len - 1);
+    }
     match h % 10 {
         0 => (0, 31),
         1 => {
@@ -156,12 +168,15 @@ pub fn domains(rng: &mut Rng, h: u64) -> (i64, i64) {
 
 pub fn gen_history(rng: &mut Rng, h: u64, len: usize) -> ((i64, i64), Vec<SOp>) {
     let (mut lo, mut hi) = domains(rng, h);
-    if hi > i32::MAX as i64 {
-        lo -= hi - i32::MAX as i64;
-        hi = i32::MAX as i64;
-    }
-    if lo < i32::MIN as i64 {
-        lo = i32::MIN as i64;
+    let wide = hi as i128 - lo as i128 >= (1i128 << 32);
+    if !wide {
+        if hi > i32::MAX as i64 {
+            lo -= hi - i32::MAX as i64;
+            hi = i32::MAX as i64;
+        }
+        if lo < i32::MIN as i64 {
+            lo = i32::MIN as i64;
+        }
     }
     let span = hi - lo;
     let mut ops = Vec::with_capacity(len);
@@ -216,13 +231,13 @@ pub fn gen_history(rng: &mut Rng, h: u64, len: usize) -> ((i64, i64), Vec<SOp>) 
             }
             45..=84 => {
                 let (a, b) = range(rng);
-                let take = if rng.chance(1, 4) { rng.range(0, 3) as i32 } else { -1 };
+                let take = if rng.chance(1, 4) { rng.range(0, 3) as i32 } else { -(rng.range(1, 8) as i32) };
                 ops.push(SOp::Q { lo: a, hi: b, t, take });
                 if rng.chance(1, 5) {
                     ops.push(SOp::Q { lo: a, hi: b, t, take: -1 });
                 }
             }
-            85..=96 => ops.push(SOp::Q { lo, hi, t, take: -1 }),
+            85..=96 => ops.push(SOp::Q { lo, hi, t, take: -(rng.range(1, 8) as i32) }),
             _ => {
                 ops.push(SOp::Clear);
                 if rng.chance(1, 2) {
@@ -242,9 +257,20 @@ pub fn history_for(cfg: &Cfg, h: u64) -> ((i64, i64), Vec<SOp>) {
 }
 
 pub fn run_history(dom: (i64, i64), ops: &[SOp], mon: &SMon, rep: &mut Report, hist: u64) -> Result<(), (Fail, usize, String)> {
-    let mut ex = match SegExec::<i32>::new(dom.0, dom.1) {
+    if dom.0 < i32::MIN as i64 || dom.1 > i32::MAX as i64 {
+        run_history_t::<i64>(dom, ops, mon, rep, hist)
+    } else {
+        run_history_t::<i32>(dom, ops, mon, rep, hist)
+    }
+}
+
+fn run_history_t<R: Coord>(dom: (i64, i64), ops: &[SOp], mon: &SMon, rep: &mut Report, hist: u64) -> Result<(), (Fail, usize, String)>
+where
+    i64: From<R>,
+{
+    let mut ex = match SegExec::<R>::new(dom.0, dom.1) {
         Some(e) => e,
-        None => return Err((Fail::new("new:refused", format!("SegExpTree::new refused the domain [{},{}]", dom.0, dom.1)), 0, format!("coord=i32 lo={} hi={}", dom.0, dom.1))),
+        None => return Err((Fail::new("new:refused", format!("SegExpTree::new refused the domain [{},{}]", dom.0, dom.1)), 0, format!("coord={} lo={} hi={}", R::NAME, dom.0, dom.1))),
     };
     for (i, op) in ops.iter().enumerate() {
         ctx::set(hist, i as u64);
@@ -267,11 +293,14 @@ pub fn suite_seg_random(cfg: &Cfg, rep: &mut Report) {
         }
         let (dom, ops) = history_for(cfg, h);
         if cfg.emit {
-            println!("CTOR coord=i32 lo={} hi={}", dom.0, dom.1);
+            println!("CTOR coord={} lo={} hi={}", if dom.0 < i32::MIN as i64 || dom.1 > i32::MAX as i64 { "i64" } else { "i32" }, dom.0, dom.1);
             for o in &ops {
                 println!("OP {}", o.line());
             }
             return;
+        }
+        if dom.0 < i32::MIN as i64 || dom.1 > i32::MAX as i64 {
+            rep.counters.inc("histories_on_64bit_domains_wider_than_2pow32");
         }
         if rep.samples.is_empty() {
             rep.sample(J::obj(vec![
